@@ -224,6 +224,9 @@ class GeoBoxBase:
     @property
     def boundingbox(self) -> BoundingBox:
         """GeoBox bounding box in the native CRS."""
+        if not self.linear:
+            # ``_affine`` is not a pixel to world mapping in this case
+            return self.extent.boundingbox
         return BoundingBox.from_transform(self._shape, self._affine, crs=self._crs)
 
     def _reproject_resolution(self, npoints: int = 100):
@@ -363,6 +366,15 @@ class GeoBoxBase:
         if shape is None:
             if resolution is None:
                 raise ValueError("Have to supply shape or resolution")
+            if not self.linear:
+                # No single affine maps pixels to the world here, so change
+                # pixel size relative to the current (approximate) one.
+                res, cur = res_(resolution), self.resolution
+                nx, ny = (
+                    max(1, math.ceil(maybe_int(n * abs(c / r), 1e-6)))
+                    for n, c, r in zip(self._shape.xy, cur.xy, res.xy)
+                )
+                return self.compute_zoom_to(shape_((ny, nx)))
             new_geobox = GeoBox.from_bbox(
                 self.boundingbox, resolution=resolution, tight=True
             )
